@@ -369,8 +369,18 @@ func c01Stress(c *mon.Ctx, r *mon.Rand) {
 				} else {
 					sc = root.SubScope(name)
 				}
-				cn := sc.Counter("c")
 				n := wr.Range(1, 3)
+				if w%2 == 1 {
+					// odd workers: a scope that never holds anything but a histogram
+					hn := sc.Histogram("h", tally.ValueBuckets{})
+					for j := 0; j < n; j++ {
+						hn.RecordValue(1)
+						reSums[w]++
+					}
+					sc.(io.Closer).Close()
+					continue
+				}
+				cn := sc.Counter("c")
 				for j := 0; j < n; j++ {
 					cn.Inc(1)
 					reSums[w]++
@@ -465,9 +475,15 @@ func c01Stress(c *mon.Ctx, r *mon.Rand) {
 			if withSan {
 				reKey = mon.IdentKey("c", map[string]string{"id": fmt.Sprintf("re%d_x", w)})
 			}
+			if w%2 == 1 {
+				reKey = mon.BucketKeyV(fmt.Sprintf("re%d.h", w), nil, -math.MaxFloat64, math.MaxFloat64)
+				if withSan {
+					reKey = mon.BucketKeyV("h", map[string]string{"id": fmt.Sprintf("re%d_x", w)}, -math.MaxFloat64, math.MaxFloat64)
+				}
+			}
 			a := agg[reKey]
 			if a.Sum != reSums[w] {
-				c.Violation("conservation-reacquire", map[string]interface{}{"why": fmt.Sprintf("re%d.c: delivered total %d, incremented total %d (close + immediate re-request cycles)", w, a.Sum, reSums[w]), "case": desc})
+				c.Violation("conservation-reacquire", map[string]interface{}{"why": fmt.Sprintf("re%d (even workers: a counter, odd workers: a scope holding only a histogram): delivered total %d, recorded total %d (close + immediate re-request cycles)", w, a.Sum, reSums[w]), "case": desc})
 			}
 		}
 		for w := 0; w < 2; w++ {
